@@ -165,6 +165,29 @@ func Execute(c Case, withExpected bool) *Run {
 		r.SetupErr = err.Error()
 		return r
 	}
+	return executeParsed(c, r, reg, cfg, withExpected)
+}
+
+// ExecuteReg is Execute with a registry that the caller built once from
+// c.Filters (and c.Config) - the enumerated sweeps lint thousands of mutants
+// against one selection. The case stays replayable through Execute.
+func ExecuteReg(c Case, reg lint.Registry, cfg lint.Configuration, withExpected bool) *Run {
+	r := &Run{}
+	switch c.Kind {
+	case gen.Cert:
+		r.Cert, r.Parsed = gen.ParseCert(c.DER)
+	case gen.CRL:
+		r.CRL, r.Parsed = gen.ParseCRL(c.DER)
+	case gen.OCSP:
+		r.OCSP, r.Parsed = gen.ParseOCSP(c.DER)
+	}
+	if !r.Parsed {
+		return r
+	}
+	return executeParsed(c, r, reg, cfg, withExpected)
+}
+
+func executeParsed(c Case, r *Run, reg lint.Registry, cfg lint.Configuration, withExpected bool) *Run {
 	r.Reg, r.Cfg = reg, cfg
 	r.Metas = map[string]lint.LintMetadata{}
 	switch c.Kind {
